@@ -26,6 +26,7 @@ func init() {
 }
 
 func runC06(c *Ctx) {
+	taskOwnsItsVariables(c, "R-C06-2") // a multicast task must still be a multicast task when it fires (shared rule)
 	// a solicitation from :: is only recognised (and answered by a rate-limited multicast RA) when the listener
 	// hands the source over without its zone: netip.Addr.IsUnspecified is false for "::%eth0"
 	if l := c.P.Method("internal/corerad", "listener", "Listen"); l != nil {
